@@ -3,6 +3,8 @@ import vlib, conc
 
 def run(res, a):
     if a.replay:
+        if "abandon_lockstep" in a.replay:
+            return conc.replay_abandon_lockstep(res, "C09", a.replay)
         return conc.replay(res, "C09", a.replay)
     vlib.proof_stage(res, "C09", files=["C09abandon"])
     envs = [None, {"VERIF_RECLAIM_ON_FREE": "1"}, {"VERIF_NO_ARENA": "1", "VERIF_RECLAIM_ON_FREE": "1"}, {"VERIF_TARGET_SEGMENTS": "2"},
